@@ -224,3 +224,62 @@ def pick_sites(repo, pid="C11"):
                 else:
                     out.append({"name": name, "status": "refuted", "detail": f"picks an arbitrary element of `{x}` with no guard that it has at most one", "clause": "no_result_depends_on_set_order", "backend": "syntactic scan", "kind": "K3-site"})
     return out
+
+
+def _truthiness_operands(test):
+    """expressions whose TRUTH VALUE the test requires (conjuncts of `and`, bool(x), walrus targets)"""
+    out = []
+    if isinstance(test, ast.BoolOp) and isinstance(test.op, ast.And):
+        for v in test.values:
+            out += _truthiness_operands(v)
+    elif isinstance(test, ast.Call) and isinstance(test.func, ast.Name) and test.func.id == "bool" and len(test.args) == 1:
+        out += _truthiness_operands(test.args[0])
+    elif isinstance(test, ast.NamedExpr):
+        out.append(ast.unparse(test.target))
+    else:
+        out.append(ast.unparse(test))
+    return out
+
+
+def gated_lookups(repo, pid="C13"):
+    """every catalog look-up `<provider>.get_table_columns(...)` is dominated by a test of the provider's TRUTH VALUE (its
+    __bool__ says whether it has metadata): an `is not None` / isinstance test does not count"""
+    out = []
+    for m in sorted(repo.modules.values(), key=lambda x: x.name):
+        if m.name in repo.ghost:
+            continue
+        for qual, fn in _functions(m):
+            parents = {}
+            for node in ast.walk(fn):
+                for ch in ast.iter_child_nodes(node):
+                    parents[ch] = node
+            for sub in ast.walk(fn):
+                if not (isinstance(sub, ast.Call) and isinstance(sub.func, ast.Attribute) and sub.func.attr == "get_table_columns"):
+                    continue
+                recv = ast.unparse(sub.func.value)
+                if "metadata_provider" not in recv and "provider" not in recv.lower():
+                    continue  # holder.get_table_columns: columns known from the statement's own graph, not a catalog look-up
+                name = f"{pid}:site:{m.name}:{qual}:{recv}.get_table_columns"
+                gate = None
+                cur, prev = sub, None
+                while cur in parents:
+                    prev, cur = cur, parents[cur]
+                    tests = []
+                    if isinstance(cur, (ast.If, ast.While)) and prev in cur.body:
+                        tests.append(cur.test)
+                    elif isinstance(cur, ast.IfExp) and prev is cur.body:
+                        tests.append(cur.test)
+                    elif isinstance(cur, ast.BoolOp) and isinstance(cur.op, ast.And):
+                        tests += cur.values[: cur.values.index(prev)]
+                    elif isinstance(cur, ast.comprehension):
+                        tests += cur.ifs
+                    for t in tests:
+                        if recv in _truthiness_operands(t):
+                            gate = ast.unparse(t)[:80]
+                    if gate:
+                        break
+                if gate:
+                    out.append({"name": name, "status": "proved", "detail": f"dominated by the truth value of `{recv}` in `{gate}`", "clause": "provider_truthiness_gates_every_lookup", "backend": "syntactic scan", "kind": "K3-site"})
+                else:
+                    out.append({"name": name, "status": "refuted", "detail": f"catalog look-up not dominated by a test of the truth value of `{recv}` (a provider without metadata would be consulted)", "clause": "provider_truthiness_gates_every_lookup", "backend": "syntactic scan", "kind": "K3-site"})
+    return out
